@@ -17,12 +17,25 @@ structure SpecSt where
   seen : List (List (Nat × Nat) × String) := []  -- converged dump per topology (sorted link list)
   lastDump : List (Nat × String) := []  -- last observed dump per router
   lastChange : Nat := 0               -- fair round (since the last disturbance) in which a table last changed
+  flightsN : List ((Nat × Nat) × Nat) := []  -- (u, w) ↦ number of advertisement fetches started by `snap`
+  awaiting : List (Nat × Nat) := []   -- (u, w): the reply to u's latest fetch of w's advertisement is still outstanding
 
 structure St where
   net : Net := []
   keys : List Nat := []
   links : List (Nat × Nat) := []
+  /-- advertisement number of every router: advances when its advertisement changes -/
+  ver : List Nat := []
+  /-- `AdvertSeq` of the neighbour state u holds for w -/
+  aseq : List ((Nat × Nat) × Nat) := []
+  /-- replies in flight for (u, w): (number, advertisement content) in the order the fetches started -/
+  flights : List ((Nat × Nat) × List (Nat × List AdvEntry)) := []
   sp : SpecSt := {}
+
+def aseqOf (s : St) (p : Nat × Nat) : Nat := ((s.aseq.find? (·.1 == p)).map (·.2)).getD 0
+def setAseq (s : St) (p : Nat × Nat) (v : Nat) : St := { s with aseq := (p, v) :: s.aseq.filter (·.1 != p) }
+def dropAseq (s : St) (p : Nat × Nat) : St := { s with aseq := s.aseq.filter (·.1 != p) }
+def flightsOf (s : St) (p : Nat × Nat) : List (Nat × List AdvEntry) := ((s.flights.find? (·.1 == p)).map (·.2)).getD []
 
 def idxOfKey (keys : List Nat) (k : Nat) : Option Nat :=
   let i := keys.idxOf k
@@ -45,6 +58,18 @@ def dumpRouter (keys : List Nat) (r : Router) : String :=
     (idxOfKey keys e.dest, s!"{optStr (idxOfKey keys e.dest)}:{f1}:{c1}:{f2}:{c2}")
   let ents := ents.mergeSort fun a b => a.1.getD 0 ≤ b.1.getD 0
   "adv=" ++ dashIfEmpty (",".intercalate (advs.map (·.2))) ++ " ent=" ++ dashIfEmpty (",".intercalate (ents.map (·.2)))
+
+/-- the advertisement part of the dump (what the neighbours can fetch) -/
+def advText (keys : List Nat) (net : Net) (u : Nat) : String :=
+  match net.get? u with
+  | some r => ((dumpRouter keys r).splitOn " ").headD ""
+  | none => ""
+
+/-- router `u` took part in an operation: its advertisement number advances iff its advertisement changed -/
+def bumpVer (before : St) (after : St) (u : Nat) : St :=
+  if advText before.keys before.net u != advText after.keys after.net u then
+    { after with ver := after.ver.set u (after.ver.getD u 1 + 1) }
+  else after
 
 def dumpAll (keys : List Nat) (net : Net) : String :=
   " ; ".intercalate ((List.range net.length).zip net |>.map fun (i, r) => s!"r{i} {dumpRouter keys r}")
@@ -86,6 +111,16 @@ def advFiniteFails (who : String) (got : String) : List SpecFail :=
 
 def parseNats (l : List String) : Option (List Nat) := l.mapM String.toNat?
 
+def parseField (got : String) (name : String) : Option String :=
+  (got.splitOn " ").findSome? fun f => if f.startsWith (name ++ "=") then some (f.drop (name.length + 1)).toString else none
+
+/-- "if the advertisement changes, the router increments the sequence number" (dv/SPEC.md): the harness
+    reports `ann=MISSING` when the advertisement content changed without the router's own number advancing -/
+def annFails (who : String) (got : String) : List SpecFail :=
+  if parseField got "ann" == some "MISSING" then
+    [⟨"advert-change-announced", "seq", s!"{who}: the advertisement changed but the advertisement sequence number did not advance: {got}"⟩]
+  else []
+
 def step (s : St) (op : String) (got : String) : StepResult St :=
   let sp := s.sp
   match op.splitOn " " with
@@ -100,7 +135,7 @@ def step (s : St) (op : String) (got : String) : StepResult St :=
         | some keys =>
           let okKeys := keys.length == n && keys.eraseDups.length == n && !keys.contains 0
           let net : Net := keys.map Router.start
-          { st := { net := net, keys := keys, links := [], sp := { n := n, keys := keys } },
+          { st := { net := net, keys := keys, links := [], ver := List.replicate n 1, sp := { n := n, keys := keys } },
             expected := none,
             spec := if okKeys then [] else [⟨"A-hash", "keys", s!"router keys not distinct / zero / wrong count: {got}"⟩] }
         | none => { st := {}, expected := some "ok <keys>" }
@@ -112,7 +147,9 @@ def step (s : St) (op : String) (got : String) : StepResult St :=
     | some a, some ws =>
       let n := s.net.length
       let specFails := if got == "skip" then [] else advFiniteFails s!"r{a}" got
-      let sp' := if got == "skip" then sp else disturb { sp with nbr := sp.nbr.filter fun p => !(p.1 == a && ws.contains p.2) }
+      let sp' := if got == "skip" then sp else
+        disturb { sp with nbr := sp.nbr.filter (fun p => !(p.1 == a && ws.contains p.2)),
+                          awaiting := sp.awaiting.filter (fun p => !(p.1 == a && ws.contains p.2)) }
       if a < n && ws.all (fun w => w < n && w != a) then
         let (net', k) := ws.foldl (fun (acc : Net × Nat) w =>
           match acc.1.dead a w with
@@ -121,7 +158,8 @@ def step (s : St) (op : String) (got : String) : StepResult St :=
         if k == 0 then { st := { s with sp := sp' }, expected := some "skip", spec := specFails, cov := ["dead-skip"] }
         else
           let ru := (net'.get? a).getD (Router.start 0)
-          { st := { s with net := net', sp := sp' }, expected := some (dumpRouter s.keys ru), spec := specFails,
+          let s1 := { s with net := net', sp := sp', aseq := s.aseq.filter fun p => !(p.1.1 == a && ws.contains p.1.2) }
+          { st := bumpVer s s1 a, expected := some (dumpRouter s.keys ru ++ " ann=ok"), spec := specFails ++ annFails s!"r{a}" got,
             cov := [if k ≥ 2 then "sweep-multi" else "sweep-single"] }
       else { st := { s with sp := sp' }, expected := some "skip", spec := specFails }
     | _, _ => { st := s, expected := some "bad-op" }
@@ -149,38 +187,98 @@ def step (s : St) (op : String) (got : String) : StepResult St :=
           let pend := sp.pending.filter fun p => p != (a, b)
           if pend.isEmpty then { sp with nbr := nbr, pending := sp.links, rounds := sp.rounds + 1 }
           else { sp with nbr := nbr, pending := pend }
-        -- model side
+        -- model side: Sync Interest announcing w's current number; a fetch (answered at once with w's
+        -- current advertisement) only if that number is newer than the remembered AdvertSeq
         if a < n && b < n && a != b && s.links.contains (a, b) then
-          match s.net.fetch a b (b + 1) with
-          | some (net', dirty) =>
-            let ru := (net'.get? a).getD (Router.start 0)
-            let selfKey := s.keys.getD a 0
-            let adv := ((s.net.get? b).map (·.rib.advert)).getD []
-            let before := ((s.net.get? a).map (·.rib.entries.length)).getD 0
-            let cov :=
-              [if dirty then "fetch-dirty" else "fetch-clean"] ++
-              (if adv.any (fun x => x.nh == selfKey && x.other < inf) then ["poison-reverse-other"] else []) ++
-              (if adv.any (fun x => x.nh == selfKey && !(x.other < inf)) then ["poison-reverse-infinite"] else []) ++
-              (if adv.any (fun x => x.nh != selfKey && x.cost + 1 ≥ inf) then ["skip-at-infinity"] else []) ++
-              (if ru.rib.entries.length < before then ["prune-delete"] else []) ++
-              (if ru.rib.entries.length > before then ["new-destination"] else []) ++
-              (if ru.rib.entries.any (fun e => e.best.low1 == e.best.low2 && e.best.low1 < inf) then ["tie-break"] else []) ++
-              (if ru.rib.entries.any (fun e => e.best.low1 ≥ 8) then ["counting-up"] else [])
-            { st := { s with net := net', sp := sp' }, expected := some (dumpRouter s.keys ru), spec := specFails, cov := cov }
-          | none => { st := { s with sp := sp' }, expected := some "skip", spec := specFails }
+          let net1 := s.net.ping a b (b + 1)
+          let sv := s.ver.getD b 1
+          let adv := ((s.net.get? b).map (·.rib.advert)).getD []
+          let starts := syncStartsFetch (aseqOf s (a, b)) sv
+          let (net', dirty) := if starts then (net1.applyAdvert a b adv).getD (net1, false) else (net1, false)
+          let ru := (net'.get? a).getD (Router.start 0)
+          let selfKey := s.keys.getD a 0
+          let before := ((s.net.get? a).map (·.rib.entries.length)).getD 0
+          let cov :=
+            [if !starts then "fetch-not-newer" else if dirty then "fetch-dirty" else "fetch-clean"] ++
+            (if starts && adv.any (fun x => x.nh == selfKey && x.other < inf) then ["poison-reverse-other"] else []) ++
+            (if starts && adv.any (fun x => x.nh == selfKey && !(x.other < inf)) then ["poison-reverse-infinite"] else []) ++
+            (if starts && adv.any (fun x => x.nh != selfKey && x.cost + 1 ≥ inf) then ["skip-at-infinity"] else []) ++
+            (if ru.rib.entries.length < before then ["prune-delete"] else []) ++
+            (if ru.rib.entries.length > before then ["new-destination"] else []) ++
+            (if ru.rib.entries.any (fun e => e.best.low1 == e.best.low2 && e.best.low1 < inf) then ["tie-break"] else []) ++
+            (if ru.rib.entries.any (fun e => e.best.low1 ≥ 8) then ["counting-up"] else [])
+          let s1 := { s with net := net', sp := sp' }
+          let s1 := if starts then setAseq s1 (a, b) sv else s1
+          { st := bumpVer s s1 a, expected := some (dumpRouter s.keys ru ++ " ann=ok"), spec := specFails ++ annFails s!"r{a}" got, cov := cov }
         else { st := { s with sp := sp' }, expected := some "skip", spec := specFails, cov := ["fetch-skip"] }
-      else if lk == "dead" then
+      else if lk == "dead" || lk == "fetchrace" then
+        -- fetchrace: advertDataHandler stored the advertisement, the dead sweep removes the neighbour, then
+        -- the pending ribUpdate runs on the removed state: it must do nothing (ns.Advert is nil)
         let specFails := if got == "skip" then [] else advFiniteFails s!"r{a}" got
-        let sp' := if got == "skip" then sp else disturb { sp with nbr := sp.nbr.filter fun p => p != (a, b) }
+        let sp' := if got == "skip" then sp else
+          disturb { sp with nbr := sp.nbr.filter (fun p => p != (a, b)), awaiting := sp.awaiting.filter (· != (a, b)) }
         if a < n && b < n && a != b then
           match s.net.dead a b with
           | some (net', dirty) =>
             let ru := (net'.get? a).getD (Router.start 0)
-            { st := { s with net := net', sp := sp' }, expected := some (dumpRouter s.keys ru), spec := specFails,
-              cov := [if dirty then "dead-dirty" else "dead-clean"] }
+            let s1 := dropAseq { s with net := net', sp := sp' } (a, b)
+            { st := bumpVer s s1 a, expected := some (dumpRouter s.keys ru ++ " ann=ok"), spec := specFails ++ annFails s!"r{a}" got,
+              cov := [if lk == "fetchrace" then "fetchrace" else if dirty then "dead-dirty" else "dead-clean"] }
           | none => { st := { s with sp := sp' }, expected := some "skip", spec := specFails, cov := ["dead-skip"] }
         else { st := { s with sp := sp' }, expected := some "skip", spec := specFails }
+      else if lk == "snap" then
+        -- a Sync Interest of b announces its current number to a; if newer, a fetch starts whose reply
+        -- (b's advertisement as of now) stays in flight until a `reply` op delivers it
+        let specFails := if got == "skip" then [] else advFiniteFails s!"r{a}" got
+        let startedI := parseField got "started" == some "1"
+        let sp' := if got == "skip" then sp else
+          let nbr := if sp.nbr.contains (a, b) then sp.nbr else (a, b) :: sp.nbr
+          let cnt := ((sp.flightsN.find? (·.1 == (a, b))).map (·.2)).getD 0
+          if startedI then
+            disturb { sp with nbr := nbr, flightsN := ((a, b), cnt + 1) :: sp.flightsN.filter (·.1 != (a, b)),
+                              awaiting := if sp.awaiting.contains (a, b) then sp.awaiting else (a, b) :: sp.awaiting }
+          else { sp with nbr := nbr }
+        if a < n && b < n && a != b && s.links.contains (a, b) then
+          let net1 := s.net.ping a b (b + 1)
+          let sv := s.ver.getD b 1
+          let adv := ((s.net.get? b).map (·.rib.advert)).getD []
+          let starts := syncStartsFetch (aseqOf s (a, b)) sv
+          let ru := (net1.get? a).getD (Router.start 0)
+          let s1 := { s with net := net1, sp := sp' }
+          let s1 := if starts then
+              { setAseq s1 (a, b) sv with flights := ((a, b), flightsOf s (a, b) ++ [(sv, adv)]) :: s.flights.filter (·.1 != (a, b)) }
+            else s1
+          { st := s1, expected := some (dumpRouter s.keys ru ++ s!" started={if starts then 1 else 0} ann=ok"),
+            spec := specFails ++ annFails s!"r{a}" got, cov := [if starts then "snap-started" else "snap-not-newer"] }
+        else { st := { s with sp := sp' }, expected := some "skip", spec := specFails }
       else { st := s, expected := some "bad-op" }
+    | _, _ => { st := s, expected := some "bad-op" }
+  | ["reply", a, b, iT] =>
+    -- the reply of flight i (or "last") of (a, b) reaches a's advertDataHandler
+    match a.toNat?, b.toNat? with
+    | some a, some b =>
+      let n := s.net.length
+      let fl := flightsOf s (a, b)
+      let idx : Option Nat := if iT == "last" then (if fl.isEmpty then none else some (fl.length - 1)) else iT.toNat?
+      let specFails := if got == "skip" then [] else advFiniteFails s!"r{a}" got
+      let cnt := ((sp.flightsN.find? (·.1 == (a, b))).map (·.2)).getD 0
+      let isLastS := iT == "last" || iT.toNat? == some (cnt - 1)
+      let sp' := if got == "skip" then sp else
+        disturb { sp with awaiting := if isLastS then sp.awaiting.filter (· != (a, b)) else sp.awaiting }
+      match idx.bind (fun i => fl[i]?) with
+      | some (sv, adv) =>
+        if !(a < n && b < n) then { st := { s with sp := sp' }, expected := some "skip", spec := specFails } else
+        let hasNbr := match s.net.get? a, s.net.get? b with
+          | some ru, some rw => (aget ru.nbrs rw.id).isSome
+          | _, _ => false
+        let acc := replyAccepted hasNbr (aseqOf s (a, b)) sv
+        let net' := if acc then ((s.net.applyAdvert a b adv).map (·.1)).getD s.net else s.net
+        let ru := (net'.get? a).getD (Router.start 0)
+        let s1 := { s with net := net', sp := sp' }
+        let newest := sv == aseqOf s (a, b)
+        { st := bumpVer s s1 a, expected := some (dumpRouter s.keys ru ++ " ann=ok"), spec := specFails ++ annFails s!"r{a}" got,
+          cov := [if acc then "reply-accepted" else if !hasNbr then "reply-no-neighbour" else if newest then "reply-accepted" else "reply-stale-ignored"] }
+      | none => { st := { s with sp := sp' }, expected := some "skip", spec := specFails }
     | _, _ => { st := s, expected := some "bad-op" }
   | ["check"] =>
     if s.net.isEmpty && sp.n == 0 then { st := s, expected := some "skip" } else
@@ -188,7 +286,7 @@ def step (s : St) (op : String) (got : String) : StepResult St :=
     let advs : List (Option (List Spec.Obs)) := parts.map fun p => parseAdv ((" ".intercalate ((p.splitOn " ").drop 1)))
     let finiteFails := ((List.range parts.length).zip parts).flatMap fun (i, p) =>
       advFiniteFails s!"r{i}" (" ".intercalate ((p.splitOn " ").drop 1))
-    let converged := staleFree sp && sp.rounds ≥ Spec.boundRounds && parts.length == sp.n
+    let converged := staleFree sp && sp.awaiting.isEmpty && sp.rounds ≥ Spec.boundRounds && parts.length == sp.n
     let t := topoOf sp
     let spFails : List SpecFail :=
       if !converged then [] else
